@@ -441,6 +441,31 @@ func (g *Gen) WriteTx(clean bool) TxSpec {
 	return t
 }
 
+// BulkKVTx generates one write transaction whose records fill about segs segments: every key of the universe once
+// (in random order), then random key/value writes.
+func (g *Gen) BulkKVTx(segs int) TxSpec {
+	t := TxSpec{Mode: "update"}
+	b := g.bucket()
+	perm := g.R.Perm(len(g.U.KVKeys))
+	if g.R.Intn(2) == 0 && len(perm) > 6 {
+		// only half of the keys: the others keep their newest version where earlier, small transactions put it
+		perm = perm[:len(perm)/2]
+	}
+	for need, i := int(g.Cfg.Seg)*segs, 0; need > 0 && len(t.Ops) <= 240; i++ {
+		var o Op
+		if i < len(perm) {
+			k := g.U.KVKeys[perm[i]]
+			o = Op{K: "Put", B: b, Key: k, Val: g.value(b, len(k))}
+		} else {
+			k := g.U.KVKeys[perm[g.R.Intn(len(perm))]]
+			o = Op{K: "Put", B: b, Key: k, Val: g.value(b, len(k))}
+		}
+		t.Ops = append(t.Ops, o)
+		need -= 42 + len(o.B) + len(o.Key) + len(o.Val)
+	}
+	return t
+}
+
 // ReadTx generates a read-only transaction of random reads over the universe.
 func (g *Gen) ReadTx(n int) TxSpec {
 	t := TxSpec{Mode: "view"}
